@@ -534,7 +534,9 @@ impl NetcodeServer {
                     && (payload matches Some(p) ==> session_nonce(p@, old(self).clients@[k]->Some_0.sequence)),  // @C10,C17,C18 update_client.drops_only_a_timed_out_or_disconnected_session
             !(r is ClientDisconnected) ==> same_sessions(old(self).clients@, final(self).clients@),             // @C10 update_client.otherwise_sessions_untouched
             r matches ServerResult::PacketToSend { addr, payload } ==> exists|k: int| #![trigger old(self).clients@[k]] slot_is(old(self).clients@, k, client_id, addr)
-                && session_nonce(payload@, old(self).clients@[k]->Some_0.sequence),                             // @C17,C19 update_client.keep_alive_goes_to_that_session
+                && session_nonce(payload@, old(self).clients@[k]->Some_0.sequence)
+                // C17: the counter value a keep-alive was sealed with is consumed: the next packet of the session gets a fresh nonce
+                && final(self).clients@[k] is Some && final(self).clients@[k]->Some_0.sequence == old(self).clients@[k]->Some_0.sequence + 1,   // @C17,C19 update_client.keep_alive_goes_to_that_session_and_consumes_its_nonce
 //@entry
         let ghost s0 = *self;
 //@before /return ServerResult::ClientDisconnected \{/ 1
